@@ -42,6 +42,23 @@ class Sched:
         self.free = False        # after the schedule is exhausted threads run freely
         self.started = {}        # method name -> count (dynamic thread naming)
         self.clock = 0           # sum of the timeouts the schedule let expire
+        self.live = set()        # controlled threads that have started and not finished
+        self.parked = set()      # ... of which: waiting for their turn (everything else is running real code)
+
+    def register(self, name):
+        with self.cv:
+            self.names[threading.get_ident()] = name
+            self.live.add(name)
+
+    def idle(self):
+        """context: the calling thread only waits (for a harness condition, or for ever) - it counts as parked"""
+        return _Idle(self)
+
+    def finish(self, name):
+        with self.cv:
+            self.live.discard(name)
+            self.parked.discard(name)
+            self.cv.notify_all()
 
     def me(self):
         return self.names.get(threading.get_ident(), "?")
@@ -69,32 +86,41 @@ class Sched:
     def _turn(self, name, kind):
         with self.cv:
             t0 = time.time()
-            while True:
-                if self.free or self.pos >= len(self.order):
-                    self.free = True
-                    self.log.append((name, kind))
-                    return kind
-                entry = self.order[self.pos]
-                exp_name, exp_kind = entry[0], entry[1]
-                if exp_name == name:
-                    if not self._compatible(exp_kind, kind):
-                        self.diverged = f"step {self.pos}: model expects {exp_name}:{exp_kind}, real thread does {kind}"
+            self.parked.add(name)
+            self.cv.notify_all()
+            try:
+                while True:
+                    if self.free or self.pos >= len(self.order):
+                        self.free = True
+                        self.log.append((name, kind))
+                        return kind
+                    entry = self.order[self.pos]
+                    exp_name, exp_kind = entry[0], entry[1]
+                    if exp_name == name:
+                        if not self._compatible(exp_kind, kind):
+                            self.diverged = f"step {self.pos}: model expects {exp_name}:{exp_kind}, real thread does {kind}"
+                            self.free = True
+                            self.cv.notify_all()
+                            return kind
+                        # a turn is granted only while every other controlled thread is parked at a gate of its own (or finished):
+                        # the code a thread runs between two of its gates never overlaps with another thread's
+                        if all(t in self.parked or t in self.ungated for t in self.live if t != name):
+                            self.pos += 1
+                            self.log.append((name, exp_kind))
+                            if len(entry) > 2 and entry[2]:
+                                self.last_kind[name] = entry[2]
+                            self.cv.notify_all()
+                            return exp_kind
+                    if time.time() - t0 > self.patience:
+                        # the thread the schedule is waiting for never arrives: divergence
+                        busy = [t for t in self.live if t != name and t not in self.parked]
+                        self.diverged = f"step {self.pos}: schedule waits for {exp_name}:{exp_kind} but {name} wants {kind} (running: {busy})"
                         self.free = True
                         self.cv.notify_all()
                         return kind
-                    self.pos += 1
-                    self.log.append((name, exp_kind))
-                    if len(entry) > 2 and entry[2]:
-                        self.last_kind[name] = entry[2]
-                    self.cv.notify_all()
-                    return exp_kind
-                if time.time() - t0 > self.patience:
-                    # the thread the schedule is waiting for never arrives: divergence
-                    self.diverged = f"step {self.pos}: schedule waits for {exp_name}:{exp_kind} but {name} wants {kind}"
-                    self.free = True
-                    self.cv.notify_all()
-                    return kind
-                self.cv.wait(0.05)
+                    self.cv.wait(0.05)
+            finally:
+                self.parked.discard(name)
 
     @staticmethod
     def _compatible(expected, actual):
@@ -103,6 +129,21 @@ class Sched:
         if expected in ("qget-empty", "qget-timeout") and actual == "qget":
             return True
         return expected in ("wait-timeout", "interrupt") and actual == "wait"
+
+
+class _Idle:
+    def __init__(self, sched):
+        self.s = sched
+
+    def __enter__(self):
+        with self.s.cv:
+            self.name = self.s.me()
+            self.s.parked.add(self.name)
+            self.s.cv.notify_all()
+
+    def __exit__(self, *a):
+        with self.s.cv:
+            self.s.parked.discard(self.name)
 
 
 class RLockR:
@@ -147,11 +188,13 @@ class EventR:
         if granted == "interrupt":
             raise KeyboardInterrupt()   # the schedule says: SIGINT reaches this (main) thread while it waits
         if self.s.free:
-            return self.e.wait(timeout)   # after the schedule: a real wait (None = until the harness gives up)
+            with self.s.idle():
+                return self.e.wait(timeout)   # after the schedule: a real wait (None = until the harness gives up)
         # the model fires a wait step only when the flag is set
         if not self.e.is_set():
             self.s.diverged = "model let a wait() pass whose event is not set in the real run"
-            return self.e.wait(2.0)
+            with self.s.idle():
+                return self.e.wait(2.0)
         return True
 
 
@@ -188,12 +231,14 @@ class QueueR:
             return self.q.popleft()
         with self.cv:
             if self.s.free:
-                if not self.cv.wait_for(lambda: self.q, timeout):
-                    raise _q.Empty()
+                with self.s.idle():
+                    if not self.cv.wait_for(lambda: self.q, timeout):
+                        raise _q.Empty()
             elif not self.q:
                 self.s.diverged = "model let a Queue.get() pass although the real queue is empty"
-                if not self.cv.wait_for(lambda: self.q, 2.0):
-                    raise _q.Empty()
+                with self.s.idle():
+                    if not self.cv.wait_for(lambda: self.q, 2.0):
+                        raise _q.Empty()
             return self.q.popleft()
 
 
@@ -238,10 +283,13 @@ class ReplayExecModel(gb.ThreadExecModel):
         name = (self.slot_names.get(m) or [f"{m}{i}" for i in range(16)])[k]
 
         def run():
-            self.sched.names[threading.get_ident()] = name
+            self.sched.register(name)
             install_tracer(self.sched)
-            self.sched.sync("begin")
-            func(*args)
+            try:
+                self.sched.sync("begin")
+                func(*args)
+            finally:
+                self.sched.finish(name)
 
         t = threading.Thread(target=run, daemon=True, name=name)
         t.start()
@@ -312,14 +360,17 @@ def run_schedule(programs: dict, order, env_builder, patience=3.0, settle=1.0, m
         fn = ns["p"]
 
         def run():
-            sched.names[threading.get_ident()] = name
+            sched.register(name)
             install_tracer(sched)
-            sched.sync("begin")
             try:
-                fn(**{k: (v(ns) if callable(v) else (ns[v] if isinstance(v, str) and v in ns else v)) for k, v in args.items()})
-                done[name] = "end"
-            except BaseException as e:  # an uncaught exception ends the thread, as in the model
-                done[name] = "uncaught:" + type(e).__name__
+                sched.sync("begin")
+                try:
+                    fn(**{k: (v(ns) if callable(v) else (ns[v] if isinstance(v, str) and v in ns else v)) for k, v in args.items()})
+                    done[name] = "end"
+                except BaseException as e:  # an uncaught exception ends the thread, as in the model
+                    done[name] = "uncaught:" + type(e).__name__
+            finally:
+                sched.finish(name)
 
         return threading.Thread(target=run, daemon=True, name=name)
 
